@@ -261,6 +261,24 @@ class World:
                 seen[obj.id] = L.canon(obj)
             if seen != M:
                 self.flag("iter", "wrong", "iteration does not yield exactly the stored objects with their stored content")
+            # one live replica per id also for objects obtained by iteration: the replica the instance handed out
+            # before (and that the client still holds, bound) is the object iteration yields, and it is refreshed
+            i = op[1]
+            for obj in objs:
+                k = self.key_of(obj)
+                want = self.rep.get((i, k))
+                if want is not None and want in self.live:
+                    if obj is not self.live[want]:
+                        self.flag("iter", "second-copy", "iteration handed out another object for an id although the replica "
+                                                         "the instance handed out before is alive and still bound to the "
+                                                         "document")
+                    elif obj.id in M and L.canon(self.live[want]) != M[obj.id]:
+                        self.flag("iter", "replica-not-refreshed", "after iterating, the live replica does not hold the "
+                                                                   "stored state")
+            for (ii, k), want in list(self.rep.items()):
+                if ii == i and want in self.live and self.ids[k] in M and L.canon(self.live[want]) != M[self.ids[k]]:
+                    self.flag("iter", "replica-not-refreshed", "after iterating, the live replica of a stored id does not "
+                                                               "hold the stored state")
             obj = objs = None
             gc.collect()
             return [8] + [x for r in sorted(rows) for x in r]
